@@ -39,6 +39,46 @@ type hookShape struct {
 	command  *ssa.Call // exec.Command
 	argv     ssa.Value // the slice
 	problems []string
+	// where argv is built: openExternally itself, or a helper it calls with its
+	// own link and media type (then bLink/bMedia are the helper's parameters)
+	build     *ssa.Function
+	bLink     *ssa.Parameter
+	bMedia    *ssa.Parameter
+	buildCall *ssa.Call
+}
+
+// argvOf: the slice whose element 0 is the program, as seen in openExternally
+// (outer) and where it is built (inner, possibly inside a helper).
+func (h *hookShape) argvOf(P *Program) (outer, inner ssa.Value) {
+	if h.command == nil {
+		return nil, nil
+	}
+	if u, ok := h.command.Call.Args[0].(*ssa.UnOp); ok && u.Op == token.MUL {
+		if ia, ok := u.X.(*ssa.IndexAddr); ok {
+			outer = ia.X
+		}
+	}
+	inner = outer
+	h.build, h.bLink, h.bMedia = h.fn, h.link, h.media
+	if v, env, ok := seeThrough(P, outer, nil); ok {
+		ex := outer.(*ssa.Extract)
+		call := ex.Tuple.(*ssa.Call)
+		sc := call.Call.StaticCallee()
+		var bl, bm *ssa.Parameter
+		for p, a := range env {
+			if a == ssa.Value(h.link) {
+				bl = p
+			}
+			if a == ssa.Value(h.media) {
+				bm = p
+			}
+		}
+		if bl != nil && bm != nil {
+			inner = v
+			h.build, h.bLink, h.bMedia, h.buildCall = sc, bl, bm, call
+		}
+	}
+	return outer, inner
 }
 
 func analyseHook(P *Program) *hookShape {
@@ -129,6 +169,7 @@ func c20R2(c *Ctx) {
 			}
 		}
 	}
+	_, inner := h.argvOf(P)
 	c.check(okProg, fname+"/argv0", pos, fname, "the program is element 0 of the argv slice", "the program passed to exec.Command is not element 0 of the copied hook")
 	okRest := false
 	if sl, ok := rest.(*ssa.Slice); ok && sl.X == argv && sl.High == nil && sl.Max == nil {
@@ -139,7 +180,7 @@ func c20R2(c *Ctx) {
 	c.check(okRest, fname+"/argv-tail", pos, fname, "the arguments are elements 1.. of the same slice", "the arguments passed to exec.Command are not argv[1:] of the same slice")
 	h.argv = argv
 	// the slice is freshly made with the hook's length and filled by copy from the configuration
-	mk, isMake := argv.(*ssa.MakeSlice)
+	mk, isMake := inner.(*ssa.MakeSlice)
 	okMake := false
 	if isMake {
 		if lc, ok := mk.Len.(*ssa.Call); ok {
@@ -154,7 +195,13 @@ func c20R2(c *Ctx) {
 		for _, r := range refs(mk) {
 			if call, ok := r.(*ssa.Call); ok {
 				if b, ok := call.Call.Value.(*ssa.Builtin); ok && b.Name() == "copy" && call.Call.Args[0] == ssa.Value(mk) {
-					if hookPath(call.Call.Args[1]) && dominatesInstr(call, h.command) {
+					before := false
+					if h.build == h.fn {
+						before = dominatesInstr(call, h.command)
+					} else {
+						before = dominatesAllReturns(call)
+					}
+					if hookPath(call.Call.Args[1]) && before {
 						nCopy++
 					}
 				}
@@ -173,6 +220,10 @@ func c20R2(c *Ctx) {
 				}
 				c.bad(fname+"/argv-escapes", P.InstrPos(r), fname, "argv is handed to "+objFullName(calleeObj(&x.Call))+" before exec")
 			case *ssa.DebugRef:
+			case *ssa.Return:
+				if h.build == h.fn {
+					c.bad(fname+"/argv-escapes", P.InstrPos(r), fname, "argv is returned")
+				}
 			default:
 				c.bad(fname+"/argv-escapes", P.InstrPos(r), fname, "argv is used in an unexpected way before exec")
 			}
@@ -219,17 +270,12 @@ func c20R3(c *Ctx) {
 		c.bad(fname+"/exec", P.Pos(h.fn.Pos()), fname, "openExternally no longer calls exec.Command")
 		return
 	}
-	var argv ssa.Value
-	if u, ok := h.command.Call.Args[0].(*ssa.UnOp); ok {
-		if ia, ok := u.X.(*ssa.IndexAddr); ok {
-			argv = ia.X
-		}
-	}
+	_, argv := h.argvOf(P)
 	if argv == nil {
 		c.bad(fname+"/argv", P.InstrPos(h.command), fname, "cannot identify the argv slice")
 		return
 	}
-	ft := factsOf(h.fn)
+	ft := factsOf(h.build)
 	seenConst := map[string]bool{}
 	for _, r := range refs(argv) {
 		ia, ok := r.(*ssa.IndexAddr)
@@ -283,11 +329,11 @@ func c20R3(c *Ctx) {
 			want, known := placeholderMap[ph]
 			got := ""
 			switch {
-			case st.Val == ssa.Value(h.link):
+			case st.Val == ssa.Value(h.bLink):
 				got = "link"
 			default:
 				if u, ok := st.Val.(*ssa.UnOp); ok && u.Op == token.MUL {
-					if fa, ok := u.X.(*ssa.FieldAddr); ok && fa.X == ssa.Value(h.media) {
+					if fa, ok := u.X.(*ssa.FieldAddr); ok && fa.X == ssa.Value(h.bMedia) {
 						got = fieldOf(fa).Name()
 					}
 				}
@@ -314,6 +360,8 @@ func c20R4(c *Ctx) {
 	h := analyseHook(P)
 	fname := FuncName(h.fn)
 	ft := factsOf(h.fn)
+	h.argvOf(P)
+	bft := factsOf(h.build)
 	n := 0
 	for _, fn := range P.Funcs {
 		eachInstr(fn, func(_ *ssa.BasicBlock, _ int, in ssa.Instruction) {
@@ -338,7 +386,16 @@ func c20R4(c *Ctx) {
 				if f.Truth {
 					continue
 				}
-				ph, ok := f.Cond.(*ssa.Phi)
+				cond := f.Cond
+				if h.build != h.fn {
+					// the flag is a result of the helper that builds argv
+					if ex, ok := cond.(*ssa.Extract); ok && ex.Tuple == ssa.Value(h.buildCall) {
+						if inner, _, ok := seeThrough(P, ex, nil); ok {
+							cond = inner
+						}
+					}
+				}
+				ph, ok := cond.(*ssa.Phi)
 				if !ok {
 					continue
 				}
@@ -356,7 +413,7 @@ func c20R4(c *Ctx) {
 						sawTrue = true
 						pred := ph.Block().Preds[k]
 						isURL := false
-						for _, pf := range ft.At(pred) {
+						for _, pf := range bft.At(pred) {
 							if cmp, ok := pf.Cmp(); ok && cmp.Op == token.EQL {
 								if s, isC := constString(cmp.Y); isC && s == "%url" {
 									isURL = true
@@ -366,7 +423,7 @@ func c20R4(c *Ctx) {
 						// and that block stores the link into argv
 						stores := false
 						for _, pin := range pred.Instrs {
-							if pst, ok := pin.(*ssa.Store); ok && pst.Val == ssa.Value(h.link) {
+							if pst, ok := pin.(*ssa.Store); ok && pst.Val == ssa.Value(h.bLink) {
 								stores = true
 							}
 						}
